@@ -77,6 +77,12 @@ func (st *PrefixStorage) Remove() error {
 	return RemoveByPrefix(st.Storage, st.prefix)
 }
 
+// Clean removes the keys of the prefix; Storage.Clean() removes the all keys of
+// the all prefixes.
+func (st *PrefixStorage) Clean() error {
+	return st.Remove()
+}
+
 func (st *PrefixStorage) Get(key []byte) ([]byte, bool, error) {
 	k := st.key(key)
 	if k == nil {
